@@ -178,6 +178,17 @@ PROPS["C15"] = {
               U("TestVerif_C15_Inject", GD, R(1500), R(10000, shards=8, timeout=1500))],
 }
 
+PROPS["C18"] = {
+    "rule": "supervision trees up to depth 3 (<= 2 groups x <= 3 members per node) whose services follow generated per-incarnation behaviours: run until "
+            "cancelled (exit latency 0..20 ms), fail after 0..40 ms by error / nil return / panic / an error wrapping context.Canceled, or signal Done; "
+            "the supervisor's context is cancelled after 300..500 ms; executed under the race detector; non-trivial = failures in two different "
+            "groups or a failure at depth 3",
+    "assumptions": ["services shorten their own node's back-off to 1..5 ms through in-package access; the bound checked is then the configured one",
+                    "failures in the last 250 ms before the cancel are not judged; a machine whose 1 ms timer fires > 100 ms late makes the time bounds inconclusive (the at-most-one-instance invariant is still judged)",
+                    "interleavings inside the supervisor are sampled, not enumerated"],
+    "units": [U("TestVerif_C18_Trees", "./pkg/supervisor", R(48, shards=8, shrinktime="30s", timeout=900), R(640, shards=16, shrinktime="60s", timeout=1500), race=True, crash_is_violation=True, replay_tries=6)],
+}
+
 def setup():
     """MANIFEST.setup_cmd: create stubs and warm the build cache for every harness binary."""
     work = os.path.join(vdriver.WORKROOT, "setup-%d" % os.getpid())
